@@ -362,7 +362,20 @@ func main() {
 			History []string `json:"history"`
 		}
 		r.LoadReplay(&a)
-		if a.System == "pairs" {
+		if a.System == "evict" {
+			in := newInst().(*inst)
+			for _, op := range a.History {
+				i := menuIndex(strings.TrimPrefix(op, "ins:"))
+				err := in.pool.VerifInsertUnchecked(in.w[i])
+				f := in.check("evict")
+				fmt.Printf("  %-10s err=%v pooled=%d\n", op, err, in.pool.GetTransactionCount())
+				if f != nil {
+					fmt.Printf("    -> FAIL %s: %s\n", f.Signature, f.What)
+					r.Violate(f.Signature, f.What, a)
+				}
+			}
+			in.Close()
+		} else if a.System == "pairs" {
 			fmt.Println("replaying the pair stage (all classes)")
 			runPairStage(r)
 		} else {
@@ -373,6 +386,8 @@ func main() {
 	}
 	// stage 2: every (slot, transaction type) pair of the conflict table
 	ps := runPairStage(r)
+	// stage 3: size-limit eviction through the insertion half of appendToTxPool
+	es := runEvictStage(r, r.Pick(5, 6))
 	res := mc.Explore(r, sp)
 	var names []string
 	for _, m := range menu {
@@ -387,8 +402,10 @@ func main() {
 	cov["pair_stage"] = map[string]interface{}{"classes": ps.classes, "ordered_pairs": ps.pairs, "histories": ps.histories, "operations": ps.ops,
 		"histories_skipped_kind_without_entry": ps.skippedHistories, "second_tx_rejected": ps.rejectedSecond, "second_tx_admitted": ps.admittedSecond, "registered_slot_type_pairs": len(mempool.VerifConflictTable()),
 		"rule": "for every conflict slot and every ordered pair of transaction kinds registered for it (kinds of different slots never meet), two real typed transactions sharing only that slot's key: histories A / B / A,B / A,B,blk / A,blk,B / A,B,A on a fresh pool; never both pooled, slot entry present, no dangling entries, fee list/size/budget consistent; registered (slot,type) pairs without a class-table entry = engine error"}
-	cov["transitions"] = res.Transitions + int64(ps.ops)
-	cov["traces_validated_against_impl"] = res.Executions + int64(ps.histories)
+	cov["evict_stage"] = map[string]interface{}{"sequences": es.sequences, "insertions": es.insertions, "insertions_that_evicted": es.evictions, "evictions_of_a_proposal": es.proposalEvictions, "insertions_excluded_by_fee_rate": es.excluded, "sequences_cut_where_the_inserted_tx_would_evict_itself": es.selfEvictionsSkipped,
+		"rule": "every sequence without repetition (length <= depth) over two sets of 6 non-conflicting menu transactions with pairwise different fee rates, inserted through VerifInsertUnchecked (AppendTx + doAddTransaction, the steps appendToTxPool performs after its checks) into a pool with the shrunk byte limit; BFS invariants after every insertion"}
+	cov["transitions"] = res.Transitions + int64(ps.ops) + int64(es.insertions)
+	cov["traces_validated_against_impl"] = res.Executions + int64(ps.histories) + int64(es.sequences)
 	cov["real_code_witness"] = "real DPoS State processed RegisterProducer(k0) and the menu's UP2; the real UpdateProducerTransaction.SpecialContextCheck then accepts the menu's UP1 (and UP1 before the update): the model rule 'a further update of a registered producer stays valid' is the repository's"
 	r.Assume = append(r.Assume,
 		"SanityCheck is stubbed (always passes) and ContextCheck is answered by the harness's chain model (inputs unspent and parent connected; Register*/proposal/withdraw/side-chain hashes: invalid once the key is used on chain; UpdateProducer/UpdateCR: valid while the producer/CR is registered and the new nickname/node key is not taken by another one — the rule of the repository's SpecialContextCheck); everything else (type, payload, inputs, fee, size, hash) is the real transaction's",
